@@ -80,9 +80,10 @@ def run(case, target=None, extra_callbacks=(), step_cap=1500):
         ev.direction0 = ev.direction
     def monitored(n_call):
         # (optionally each call monitors its own subset of the events)
-        if case.get("call_events") is None:
-            return evs
-        return [evs[i] for i in case["call_events"][n_call]]
+        sel = evs if case.get("call_events") is None else [evs[i] for i in case["call_events"][n_call]]
+        if case.get("as_bound_methods"):
+            return [ev.__call__ for ev in sel]        # a new bound-method object per call for the same function
+        return sel
     r.calls_end = []
     for n_call, tgt in enumerate(case.get("pre_targets", [])):
         # the span is covered by several integrate() calls, all of them with the events monitored
